@@ -74,6 +74,7 @@ type translator struct {
 	rbool []bool   // explicit results that are bool
 	gty   map[string]string // Go integer type of every local variable / parameter (int32 arithmetic wraps, see goType)
 	brk   func(sc scope) string // what `break` yields inside the loop being translated (nil outside loops)
+	cont  func(sc scope) string // what `continue` yields there: the post statement, then the next round
 	fuel  bool                  // the function contains a loop whose condition is a method call: it takes a fuel argument
 }
 
@@ -569,6 +570,15 @@ func assigned(stmts []ast.Stmt, sc scope, acc map[string]bool) {
 			}
 		case *ast.BlockStmt:
 			assigned(x.List, sc, acc)
+		case *ast.ExprStmt:
+			// buf.Write(…) on a translated output list appends to it (see the ExprStmt case of stmts)
+			if call, ok := x.X.(*ast.CallExpr); ok {
+				if sel, ok := call.Fun.(*ast.SelectorExpr); ok && sel.Sel.Name == "Write" {
+					if buf, ok := sel.X.(*ast.Ident); ok && sc[buf.Name] == "List Int" {
+						acc[buf.Name] = true
+					}
+				}
+			}
 		case *ast.ForStmt:
 			if x.Init != nil {
 				assigned([]ast.Stmt{x.Init}, sc, acc)
@@ -589,7 +599,7 @@ func terminates(stmts []ast.Stmt) bool {
 	case *ast.ReturnStmt:
 		return true
 	case *ast.BranchStmt:
-		return x.Tok == token.BREAK && x.Label == nil
+		return (x.Tok == token.BREAK || x.Tok == token.CONTINUE) && x.Label == nil
 	case *ast.BlockStmt:
 		return terminates(x.List)
 	case *ast.IfStmt:
@@ -609,7 +619,7 @@ func hasReturn(stmts []ast.Stmt) bool {
 			case *ast.ReturnStmt:
 				found = true
 			case *ast.BranchStmt:
-				if x.Tok != token.BREAK || x.Label != nil {
+				if (x.Tok != token.BREAK && x.Tok != token.CONTINUE) || x.Label != nil {
 					found = true
 				}
 			}
@@ -830,18 +840,66 @@ func (t *translator) stmts(list []ast.Stmt, sc scope, fall func(sc scope) string
 			return strings.TrimSpace(name + " " + strings.Join(pargs, " ") + " " + fuel + " " + strings.Join(sargs, " "))
 		}
 		again := func(scope) string { return call("fuel") }
+		// a counting loop `for …; v < N; v++` whose body leaves v and N alone runs exactly N - v rounds: that is its fuel
+		fuelExpr := fmt.Sprint(loopFuel)
+		if be, ok := x.Cond.(*ast.BinaryExpr); ok && be.Op == token.LSS && x.Post != nil {
+			if v, ok := be.X.(*ast.Ident); ok {
+				if inc, ok := x.Post.(*ast.IncDecStmt); ok && inc.Tok == token.INC {
+					if pv, ok := inc.X.(*ast.Ident); ok && pv.Name == v.Name {
+						bodyAcc := map[string]bool{}
+						assigned(x.Body.List, sc, bodyAcc)
+						inv := !bodyAcc[v.Name]
+						ast.Inspect(be.Y, func(n ast.Node) bool {
+							if id, ok := n.(*ast.Ident); ok && acc[id.Name] {
+								inv = false
+							}
+							return true
+						})
+						if inv {
+							fuelExpr = "(Int.toNat (" + t.expr(be.Y, sc) + " - " + lname(v.Name) + "))"
+						}
+					}
+				}
+			}
+		}
+		obrk, ocont := t.brk, t.cont
+		t.brk = func(scope) string { return tuple(vars) }
+		t.cont = func(s scope) string {
+			if x.Post != nil {
+				return t.stmts([]ast.Stmt{x.Post}, s, again)
+			}
+			return again(s)
+		}
+		defer func() { t.brk, t.cont = obrk, ocont }()
 		def := fmt.Sprintf("def %s %s : Nat → %s → %s\n  | 0, %s => %s\n  | fuel+1, %s =>\n  if %s then (%s)\n  else %s\n",
 			name, strings.Join(binders, " "), strings.Join(stys, " → "), strings.Join(stys, " × "),
 			strings.Join(sargs, ", "), tuple(vars), strings.Join(sargs, ", "),
 			t.cond(x.Cond, sc), t.stmts(body, sc, again), tuple(vars))
 		t.aux = append(t.aux, def)
-		return pre + rebind(vars, sc, "("+call(fmt.Sprint(loopFuel))+")", fmt.Sprintf("r%d", t.nloop)) + t.stmts(rest, sc, fall)
+		t.brk, t.cont = obrk, ocont
+		return pre + rebind(vars, sc, "("+call(fuelExpr)+")", fmt.Sprintf("r%d", t.nloop)) + t.stmts(rest, sc, fall)
 	case *ast.BranchStmt:
 		if x.Tok == token.BREAK && x.Label == nil && t.brk != nil {
 			return t.brk(sc)
 		}
+		if x.Tok == token.CONTINUE && x.Label == nil && t.cont != nil {
+			return t.cont(sc)
+		}
 		bail(x.Pos(), "unsupported branch statement")
 	case *ast.ExprStmt:
+		// buf.Write(encodeValue(e)) with buf a translated output list: the value is appended (the list is the sequence of
+		// values handed to the encoder, in order; their byte encoding is the model's putUvarint)
+		if call, ok := x.X.(*ast.CallExpr); ok && len(call.Args) == 1 {
+			if sel, ok := call.Fun.(*ast.SelectorExpr); ok && sel.Sel.Name == "Write" {
+				if buf, ok := sel.X.(*ast.Ident); ok && sc[buf.Name] == "List Int" {
+					if inner, ok := call.Args[0].(*ast.CallExpr); ok && len(inner.Args) == 1 {
+						if f, ok := inner.Fun.(*ast.Ident); ok && f.Name == "encodeValue" {
+							return "let " + lname(buf.Name) + " : List Int := " + lname(buf.Name) + " ++ [" + t.expr(inner.Args[0], sc) + "];\n  " + t.stmts(rest, sc, fall)
+						}
+					}
+				}
+			}
+		}
 		bail(x.Pos(), "expression statement (side effect)")
 	}
 	bail(s.Pos(), "unsupported statement %T", s)
@@ -1119,6 +1177,8 @@ type codeGroup struct {
 	namespace string
 	structs   []string
 	funcs     []string // "Recv.name" or "name"
+	also      []string // further files whose listed functions are looked up too
+	regions   []regionSpec
 	loops     []string // functions that are not translated as a whole (floats, allocation) but whose top-level
 	// `for` loops are: each becomes `<fn>_loop<k>` over the variables it assigns, every other variable it reads is a parameter
 }
@@ -1170,6 +1230,221 @@ func (t *translator) loopSnippets(fd *ast.FuncDecl) {
 	t.out = append(t.out, strings.Join(t.aux, "\n"))
 }
 
+// region: a run of statements of a function that is not translated as a whole (it marshals documents, compresses, …):
+// from the first statement that declares `from` up to (not including) the first statement that mentions `until`.
+// Field chains rooted in the receiver (c.numSamples, c.lastSample.values) are read-only inputs of the region and become
+// parameters named after the chain (c_numSamples); `len(chain)` becomes the parameter len_<chain>; a chain that is indexed
+// is a `List Int`; `outputs` are byte buffers the region writes encoded values to (List Int, see the ExprStmt case).
+// The region's result is the tuple of the outer variables it assigns.
+type regionSpec struct {
+	fn, from, until string
+	outputs         []string
+}
+
+func flatName(e ast.Expr) (string, bool) {
+	switch x := e.(type) {
+	case *ast.Ident:
+		return x.Name, true
+	case *ast.SelectorExpr:
+		if b, ok := flatName(x.X); ok {
+			return b + "_" + x.Sel.Name, true
+		}
+	}
+	return "", false
+}
+
+// flatten rewrites the receiver-rooted field chains of a region to plain identifiers and records their Lean types
+func flattenExpr(e ast.Expr, root string, tys map[string]string) ast.Expr {
+	switch x := e.(type) {
+	case *ast.SelectorExpr:
+		if r, ok := rootVar(x); ok && r == root {
+			if n, ok := flatName(x); ok {
+				if _, seen := tys[n]; !seen {
+					tys[n] = "Int"
+				}
+				return &ast.Ident{NamePos: x.Pos(), Name: n}
+			}
+		}
+		return x
+	case *ast.CallExpr:
+		if id, ok := x.Fun.(*ast.Ident); ok && id.Name == "len" && len(x.Args) == 1 {
+			if r, ok := rootVar(x.Args[0]); ok && r == root {
+				if n, ok := flatName(x.Args[0]); ok {
+					tys["len_"+n] = "Int"
+					return &ast.Ident{NamePos: x.Pos(), Name: "len_" + n}
+				}
+			}
+		}
+		for i := range x.Args {
+			x.Args[i] = flattenExpr(x.Args[i], root, tys)
+		}
+		return x
+	case *ast.IndexExpr:
+		x.X = flattenExpr(x.X, root, tys)
+		if id, ok := x.X.(*ast.Ident); ok {
+			if _, ok := tys[id.Name]; ok {
+				tys[id.Name] = "List Int"
+			}
+		}
+		x.Index = flattenExpr(x.Index, root, tys)
+		return x
+	case *ast.BinaryExpr:
+		x.X, x.Y = flattenExpr(x.X, root, tys), flattenExpr(x.Y, root, tys)
+		return x
+	case *ast.ParenExpr:
+		x.X = flattenExpr(x.X, root, tys)
+		return x
+	case *ast.UnaryExpr:
+		x.X = flattenExpr(x.X, root, tys)
+		return x
+	}
+	return e
+}
+
+func flattenStmt(s ast.Stmt, root string, tys map[string]string) {
+	switch x := s.(type) {
+	case *ast.AssignStmt:
+		for i := range x.Rhs {
+			x.Rhs[i] = flattenExpr(x.Rhs[i], root, tys)
+		}
+		for i := range x.Lhs {
+			if r, ok := rootVar(x.Lhs[i]); ok && r == root {
+				bail(x.Pos(), "the region assigns through the receiver")
+			}
+			x.Lhs[i] = flattenExpr(x.Lhs[i], root, tys)
+		}
+	case *ast.IncDecStmt:
+		if r, ok := rootVar(x.X); ok && r == root {
+			bail(x.Pos(), "the region assigns through the receiver")
+		}
+	case *ast.ExprStmt:
+		x.X = flattenExpr(x.X, root, tys)
+	case *ast.DeclStmt:
+		if gd, ok := x.Decl.(*ast.GenDecl); ok {
+			for _, sp := range gd.Specs {
+				if vs, ok := sp.(*ast.ValueSpec); ok {
+					for i := range vs.Values {
+						vs.Values[i] = flattenExpr(vs.Values[i], root, tys)
+					}
+				}
+			}
+		}
+	case *ast.IfStmt:
+		if x.Init != nil {
+			flattenStmt(x.Init, root, tys)
+		}
+		x.Cond = flattenExpr(x.Cond, root, tys)
+		flattenStmt(x.Body, root, tys)
+		if x.Else != nil {
+			flattenStmt(x.Else, root, tys)
+		}
+	case *ast.ForStmt:
+		if x.Init != nil {
+			flattenStmt(x.Init, root, tys)
+		}
+		if x.Cond != nil {
+			x.Cond = flattenExpr(x.Cond, root, tys)
+		}
+		if x.Post != nil {
+			flattenStmt(x.Post, root, tys)
+		}
+		flattenStmt(x.Body, root, tys)
+	case *ast.BlockStmt:
+		for _, st := range x.List {
+			flattenStmt(st, root, tys)
+		}
+	}
+}
+
+func mentions(n ast.Node, name string) bool {
+	found := false
+	ast.Inspect(n, func(m ast.Node) bool {
+		if id, ok := m.(*ast.Ident); ok && id.Name == name {
+			found = true
+		}
+		return true
+	})
+	return found
+}
+
+func (t *translator) region(fd *ast.FuncDecl, r regionSpec) {
+	k := fd.Name.Name
+	t.fn, t.aux, t.nloop, t.named, t.muts, t.isErr, t.rbool = k, nil, 0, nil, nil, false, nil
+	t.gty = map[string]string{}
+	t.brk, t.cont, t.fuel = nil, nil, false
+	defer func() {
+		if rec := recover(); rec != nil {
+			u, ok := rec.(unsupported)
+			if !ok {
+				panic(rec)
+			}
+			t.out = append(t.out, fmt.Sprintf("/- NOT TRANSLATED region of %s: %s -/\n", k, u.msg))
+		}
+	}()
+	lo, hi := -1, -1
+	for i, st := range fd.Body.List {
+		if lo < 0 {
+			declares := false
+			switch x := st.(type) {
+			case *ast.AssignStmt:
+				if x.Tok == token.DEFINE {
+					for _, l := range x.Lhs {
+						if id, ok := l.(*ast.Ident); ok && id.Name == r.from {
+							declares = true
+						}
+					}
+				}
+			case *ast.DeclStmt:
+				declares = mentions(x, r.from)
+			}
+			if declares {
+				lo = i
+			}
+			continue
+		}
+		if mentions(st, r.until) {
+			hi = i
+			break
+		}
+	}
+	if lo < 0 || hi < 0 {
+		bail(fd.Pos(), "region %s..%s not found", r.from, r.until)
+	}
+	root := ""
+	if fd.Recv != nil && len(fd.Recv.List) == 1 && len(fd.Recv.List[0].Names) == 1 {
+		root = fd.Recv.List[0].Names[0].Name
+	}
+	stmts := fd.Body.List[lo:hi]
+	tys := map[string]string{}
+	for _, st := range stmts {
+		flattenStmt(st, root, tys)
+	}
+	sc := scope{}
+	for n, ty := range tys {
+		sc[n] = ty
+	}
+	for _, o := range r.outputs {
+		sc[o] = "List Int"
+	}
+	acc := map[string]bool{}
+	assigned(stmts, sc, acc)
+	for _, o := range r.outputs {
+		acc[o] = true // written through Write
+	}
+	vars := sorted(acc)
+	var binders, rtys []string
+	for _, n := range sorted(func() map[string]bool { m := map[string]bool{}; for n := range sc { m[n] = true }; return m }()) {
+		binders = append(binders, fmt.Sprintf("(%s : %s)", lname(n), sc[n]))
+	}
+	for _, v := range vars {
+		rtys = append(rtys, sc[v])
+	}
+	body := t.stmts(stmts, sc, func(scope) string { return tuple(vars) })
+	def := fmt.Sprintf("def %s_region %s : %s :=\n  %s\n", lname(k), strings.Join(binders, " "), strings.Join(rtys, " × "), body)
+	t.out = append(t.out, strings.Join(t.aux, "\n"))
+	t.out = append(t.out, def)
+}
+
 var codeGroups = []codeGroup{
 	{file: "hdrhist/hdr.go", namespace: "Hdr", structs: []string{"Histogram", "iterator"},
 		funcs: []string{"bitLen", "Histogram.getBucketIndex", "Histogram.getSubBucketIdx", "Histogram.countsIndex",
@@ -1182,6 +1457,8 @@ var codeGroups = []codeGroup{
 		structs: []string{"PerformanceCounters", "PerformanceTimers", "PerformanceGauges", "Performance"},
 		funcs:   []string{"Performance.Add"}},
 	{file: "util.go", namespace: "Util", funcs: []string{"getOffset"}},
+	{file: "collector_better.go", also: []string{"util.go"}, namespace: "Better", funcs: []string{"getOffset"},
+		regions: []regionSpec{{fn: "getPayload", from: "zeroCount", until: "compressBuffer", outputs: []string{"payload"}}}},
 }
 
 func translateCode(parse func(string) *ast.File) string {
@@ -1191,12 +1468,16 @@ func translateCode(parse func(string) *ast.File) string {
 	b.WriteString("import FtdcVerif.Gen.Prelude\nnamespace Ftdc.Gen\n")
 	for _, g := range codeGroups {
 		f := parse(g.file)
+		decls := append([]ast.Decl{}, f.Decls...)
+		for _, a := range g.also {
+			decls = append(decls, parse(a).Decls...)
+		}
 		t := &translator{structs: map[string]*ast.StructType{}, funcs: map[string]*ast.FuncDecl{}, done: map[string]bool{}, failed: map[string]string{}}
 		want := map[string]bool{}
 		for _, k := range g.funcs {
 			want[k] = true
 		}
-		for _, d := range f.Decls {
+		for _, d := range decls {
 			switch x := d.(type) {
 			case *ast.GenDecl:
 				for _, sp := range x.Specs {
@@ -1231,6 +1512,18 @@ func translateCode(parse func(string) *ast.File) string {
 				continue
 			}
 			t.function(k)
+		}
+		for _, r := range g.regions {
+			found := false
+			for _, d := range f.Decls {
+				if fd, ok := d.(*ast.FuncDecl); ok && fd.Name.Name == r.fn && fd.Body != nil {
+					t.region(fd, r)
+					found = true
+				}
+			}
+			if !found {
+				t.out = append(t.out, fmt.Sprintf("/- NOT FOUND: %s -/\n", r.fn))
+			}
 		}
 		for _, name := range g.loops {
 			found := false
